@@ -20,6 +20,19 @@ def u_isinstance(tname):
     return U_isinst[tname]
 
 
+class Bound(dict):
+    """Parameter binding of one call; remembers which parameters were filled from their declared defaults."""
+    def __init__(self, *a, **kw):
+        super().__init__(*a, **kw)
+        self.defaulted = set()
+
+    def with_(self, n, v):
+        b = Bound(self)
+        b.defaulted = set(self.defaulted)
+        b[n] = v
+        return b
+
+
 class CallMixin:
     # ------------------------------------------------------------ entry
     def ev_Call(self, e, st, ctx, k):
@@ -219,7 +232,7 @@ class CallMixin:
         pos = list(args)
         if recv is not None:
             pos = [recv] + pos
-        bound = {}
+        bound = Bound()
         line = getattr(node, "lineno", None)
         if len(pos) > len(params) and a.vararg is None:
             return self.raise_(st, ctx, "TypeError", line)
@@ -251,6 +264,7 @@ class CallMixin:
             n = missing[i]
             if n not in defaults:
                 return self.raise_(st1, ctx, "TypeError", line)
+            bound.defaulted.add(n)
             self.ev(defaults[n], st1, ctx, lambda st2, v: (bound.__setitem__(n, v), fill(i + 1, st2)))
         fill(0, st)
 
@@ -304,8 +318,22 @@ class CallMixin:
 
     # ------------------------------------------------------------ contracts at call sites
     def select_case(self, c, bound):
+        defaulted = getattr(bound, "defaulted", None)
         for i, case in enumerate(c.cases):
             ok = True
+            if defaulted is not None:
+                # a case speaks about calls in which every parameter it does not list keeps its default value
+                for n, v in bound.items():
+                    if n in case or ("*" + n) in case or ("**" + n) in case or n in defaulted:
+                        continue
+                    if isinstance(v, VTuple) and not v.items:
+                        continue
+                    if isinstance(v, VDict) and not v.d:
+                        continue
+                    ok = False
+                    break
+                if not ok:
+                    continue
             for n, ty in case.items():
                 if n.startswith("*"):
                     continue
@@ -327,9 +355,9 @@ class CallMixin:
             for n, v in bound.items():
                 if isinstance(v, VObj) and len(v.classes) > 1:
                     return self.for_classes(st, v, lambda s, cls, n=n, v=v: self.apply_contract(
-                        s, ctx, c, {**bound, n: VObj((cls,), v.t)}, k, node))
+                        s, ctx, c, bound.with_(n, VObj((cls,), v.t)), k, node))
                 if isinstance(v, VOpt) and n in c.cases[0] and c.cases[0][n].k != "opt":
-                    return self.unwrap(st, ctx, v, node, lambda s, x, n=n: self.apply_contract(s, ctx, c, {**bound, n: x}, k, node))
+                    return self.unwrap(st, ctx, v, node, lambda s, x, n=n: self.apply_contract(s, ctx, c, bound.with_(n, x), k, node))
             raise Unsupported("no contract case of %s fits the arguments %r (line %s)" % (
                 c.qual, {n: ty_of_safe(v) for n, v in bound.items()}, line))
         case = c.cases[ci]
